@@ -13,8 +13,8 @@
 // (findMetricsVars: the package-level variables of struct type whose fields the exported Record* functions — and
 // the same-package functions they call — access with sync/atomic / under the struct's mutex); calls of same-package
 // functions that touch the state are INLINED (up to inlineDepth levels; pointer parameters are bound to the field
-// whose address they receive, *Metrics parameters / receivers to the variable); `&&` / `||` whose right operand
-// touches the state are compiled to control flow (short-circuit evaluation); locals assigned more than once
+// whose address they receive, *Metrics parameters / receivers to the variable); `&&` / `||` that touch the state
+// are compiled to control flow (short-circuit evaluation); locals assigned more than once
 // (a `done` flag) live in registers (`set`).
 package main
 
@@ -822,6 +822,9 @@ func (t *mtr) cond(e ast.Expr, hoist func(ast.Expr) (interface{}, bool)) (interf
 	case *ast.BinaryExpr:
 		switch x.Op {
 		case token.LAND, token.LOR:
+			if hoist != nil && t.shared(x) {
+				return nil, false // never hoist an atomic call out of a short-circuit operand (jumpCond compiles these)
+			}
 			a, ok1 := t.cond(x.X, hoist)
 			b, ok2 := t.cond(x.Y, hoist)
 			if !ok1 || !ok2 {
@@ -1007,6 +1010,27 @@ func (t *mtr) block(stmts []ast.Stmt, ctx interface{}, locked string, retOK bool
 			out = append(out, t.inline(s, call, fd, ctx, locked)...)
 			continue
 		}
+		// m := g  (a local name for the metrics variable)
+		if as, ok := s.(*ast.AssignStmt); ok && as.Tok == token.DEFINE && len(as.Lhs) == 1 && len(as.Rhs) == 1 {
+			if lid, ok := as.Lhs[0].(*ast.Ident); ok {
+				if rid, ok := ast.Unparen(as.Rhs[0]).(*ast.Ident); ok {
+					robj := t.p.TypesInfo.Uses[rid]
+					if _, isg := t.isG(robj); isg && t.p.TypesInfo.Defs[lid] != nil {
+						if g, ok := t.alias[robj]; ok {
+							robj = g
+						}
+						t.alias[t.p.TypesInfo.Defs[lid]] = robj
+						continue
+					}
+				}
+			}
+		}
+		// control leaves the function / runs elsewhere: nothing after it can be described as a sequence of sections
+		// (statements that touch a field handle `return` themselves: rmwc.stmt, or the recursive call for a pure `if`)
+		if len(t.locs(s)) == 0 && escapesControl(s) {
+			out = append(out, t.unknown(s, ctx, "?"))
+			continue
+		}
 		// lock regions
 		if m, f, ok := t.lockCall(s); ok {
 			if m == "Lock" && locked == "" {
@@ -1115,6 +1139,42 @@ func (t *mtr) block(stmts []ast.Stmt, ctx interface{}, locked string, retOK bool
 		i = j - 1
 	}
 	return out
+}
+
+// escapesControl: s is, or contains outside a function literal and outside the statements the translator compiles
+// itself (loops and conditionals around atomic operations), a return / goto / labelled branch / go / defer / panic
+func escapesControl(s ast.Stmt) bool {
+	switch x := s.(type) {
+	case *ast.ReturnStmt, *ast.GoStmt, *ast.DeferStmt, *ast.LabeledStmt:
+		return true
+	case *ast.BranchStmt:
+		return true
+	case *ast.ExprStmt:
+		if call, ok := x.X.(*ast.CallExpr); ok {
+			if id, ok := call.Fun.(*ast.Ident); ok && id.Name == "panic" {
+				return true
+			}
+		}
+	case *ast.IfStmt:
+		if x.Init != nil && escapesControl(x.Init) {
+			return true
+		}
+		for _, b := range x.Body.List {
+			if escapesControl(b) {
+				return true
+			}
+		}
+		if x.Else != nil {
+			return escapesControl(x.Else)
+		}
+	case *ast.BlockStmt:
+		for _, b := range x.List {
+			if escapesControl(b) {
+				return true
+			}
+		}
+	}
+	return false
 }
 
 // usesLocalOf: s mentions a local variable defined in one of the earlier statements
@@ -1276,16 +1336,17 @@ func (c *rmwc) condOf(e ast.Expr) (interface{}, bool) {
 }
 
 // jumpCond: code that jumps to target iff e evaluates to onTrue and falls through otherwise.  `&&` / `||` whose right
-// operand touches the shared state are compiled to control flow: the right operand (an atomic call) is executed only
-// when the left one does not decide — Go's short-circuit evaluation.  Everything else (the right operand is pure, so
-// evaluating it eagerly is unobservable) becomes one condition, atomic calls in it hoisted in evaluation order.
+// operands touch the shared state are compiled to control flow: the right operand (an atomic call) is executed only
+// when the left one does not decide — Go's short-circuit evaluation.  Only a pure `&&` / `||` (evaluating it eagerly
+// is unobservable) stays one condition; atomic calls in the operands of a comparison are hoisted in evaluation order
+// (cond refuses to hoist anything out of an operand of `&&` / `||`).
 func (c *rmwc) jumpCond(e ast.Expr, onTrue bool, target int) {
 	e = ast.Unparen(e)
 	if u, ok := e.(*ast.UnaryExpr); ok && u.Op == token.NOT {
 		c.jumpCond(u.X, !onTrue, target)
 		return
 	}
-	if b, ok := e.(*ast.BinaryExpr); ok && (b.Op == token.LAND || b.Op == token.LOR) && c.t.shared(b.Y) {
+	if b, ok := e.(*ast.BinaryExpr); ok && (b.Op == token.LAND || b.Op == token.LOR) && c.t.shared(b) {
 		if (b.Op == token.LAND) == onTrue {
 			// a && b reached with "jump if true" (a || b with "jump if false"): the left operand alone decides against
 			skip := c.newLabel()
